@@ -39,7 +39,7 @@ class ValueGen:
         else: v = rng.choice([F(1, 3), F(2, 3), F(1, 8), 7, 0.0, 1e-4, 123456.4999])
         if allow_exp and rng.random() < 0.7:
             v = rng.choice([1234567, 1e-5, 0.00001234, 1e6, 12345678.9, F(1, 30000), 999999.5, 2500000])
-        if signed and rng.random() < 0.3: v = -v
+        if signed and v != 0 and rng.random() < 0.3: v = -v      # -0.0 has no rational counterpart
         return v
 
     def length(self, units, signed=False, allow_exp=None):
@@ -211,7 +211,7 @@ class ModelDocGen:
         self.timing(e)
         if regs and rng.random() < 0.3: e.set_region(rng.choice(regs))
         if rng.random() < 0.12: e.set_space(rng.choice(list(m.WhiteSpaceHandling)))
-        if self.pf and rng.random() < self.pf: e.set_lang(rng.choice(["fr", "de"]))
+        e.set_lang(rng.choice(["fr", "de"]) if (self.pf and rng.random() < self.pf) else self.lang)
         if rng.random() < 0.08: e.set_id(f"e{rng.randrange(1000)}")
         self.styles(e)
 
@@ -228,30 +228,30 @@ class ModelDocGen:
             if k < 0.55:
                 if last_text and not (self.pf and rng.random() < self.pf * 3): continue     # adjacent Text children: finding adjacent-text
                 self.text(e); last_text = True
-            elif k < 0.7: e.push_child(m.Br(d)); last_text = False
+            elif k < 0.7: br = m.Br(d); br.set_lang(self.lang); e.push_child(br); last_text = False
             elif depth < 3: e.push_child(self.span(d, regs, depth + 1)); last_text = False
         return e
 
     def rspan(self, d, cls):
-        e = cls(d)
+        e = cls(d); e.set_lang(self.lang)
         if self.rng.random() < 0.2: self.styles(e, 1)
-        sp = self.m.Span(d); self.text(sp); e.push_child(sp)
+        sp = self.m.Span(d); sp.set_lang(self.lang); self.text(sp); e.push_child(sp)
         return e
 
     def ruby(self, d, regs):
         m = self.m; rng = self.rng
-        e = m.Ruby(d)
+        e = m.Ruby(d); e.set_lang(self.lang)
         if rng.random() < 0.3: self.timing(e)
         if rng.random() < 0.2: self.styles(e, 1)
         shape = rng.choice(["bt", "bptp", "cc", "ccc"])
         if shape == "bt": kids = [self.rspan(d, m.Rb), self.rspan(d, m.Rt)]
         elif shape == "bptp": kids = [self.rspan(d, m.Rb), self.rspan(d, m.Rp), self.rspan(d, m.Rt), self.rspan(d, m.Rp)]
         else:
-            bc = m.Rbc(d)
+            bc = m.Rbc(d); bc.set_lang(self.lang)
             for _ in range(rng.randint(1, 2)): bc.push_child(self.rspan(d, m.Rb))
             kids = [bc]
             for _ in range(1 if shape == "cc" else 2):
-                tc = m.Rtc(d)
+                tc = m.Rtc(d); tc.set_lang(self.lang)
                 if rng.random() < 0.3: tc.push_children([self.rspan(d, m.Rp), self.rspan(d, m.Rt), self.rspan(d, m.Rp)])
                 else: tc.push_children([self.rspan(d, m.Rt) for _ in range(rng.randint(1, 2))])
                 kids.append(tc)
@@ -262,6 +262,7 @@ class ModelDocGen:
         m = self.m; s = self.s; rng = self.rng
         d = m.ContentDocument()
         if rng.random() < 0.85: d.set_lang(rng.choice(["en", "ja", "en-US"]))
+        self.lang = d.get_lang()
         if rng.random() < 0.3: d.set_cell_resolution(m.CellResolutionType(rows=rng.choice([15, 20, 24]), columns=rng.choice([32, 40, 80])))
         if rng.random() < 0.3: d.set_px_resolution(m.PixelResolutionType(rng.choice([640, 1920]), rng.choice([480, 1080])))
         if rng.random() < 0.2:
@@ -271,7 +272,7 @@ class ModelDocGen:
             p = rng.choice(self.props); d.put_initial_value(p, self.vg.value(p))
         regs = []
         for i in range(rng.choice([0, 1, 1, 2, 3])):
-            r = m.Region(f"r{i}", d)
+            r = m.Region(f"r{i}", d); r.set_lang(self.lang)
             if rng.random() < 0.4: r.set_begin(self.time(4))
             if rng.random() < 0.4: r.set_end(self.time(14))
             if rng.random() < 0.1: r.set_space(m.WhiteSpaceHandling.PRESERVE)
@@ -284,7 +285,7 @@ class ModelDocGen:
             for _ in range(rng.randint(0, 3)):
                 k = rng.random()
                 if k < 0.65: e.push_child(self.span(d, regs, 0))
-                elif k < 0.8: e.push_child(m.Br(d))
+                elif k < 0.8: br = m.Br(d); br.set_lang(self.lang); e.push_child(br)
                 else: e.push_child(self.ruby(d, regs))
             return e
         def div(depth):
